@@ -90,15 +90,23 @@ class Sched:
 
 
 def run(res, tier, build_ok):
+    import time as _t
+    _t0 = [_t.time()]
+
+    def lap(name):
+        res.notes.append("section %s: %.1fs" % (name, _t.time() - _t0[0]))
+        _t0[0] = _t.time()
     rng = random.Random(common.SEED * 7919 + 9)
     scale = 1 if (tier == "quick" and build_ok) else 5
     data = cmds.gen_data()
     drv = Driver()
     std = cmds.StdInfo(drv, data["commands"])
     sets = cmds.opcode_sets()
+    import os
+    import pickle
     pool = []
     for c in data["commands"]:
-        if c.get("computed") or c["cls"].startswith(("ATAPass", "ExtendedCopy")):
+        if (c.get("computed") and not c["cls"].startswith("ATAPass")) or c["cls"].startswith("ExtendedCopy"):
             continue
         module = c["module"].split(".")[-1]
         s = std.get(module, c["cls"])
@@ -111,16 +119,47 @@ def run(res, tier, build_ok):
             continue
         cls = cmds.get_class(c["module"], c["cls"])
         kw = c01.finalize_kwargs(c, c01.make_cases(c, s, rng, 1)[-1], rng)
+        if c["cls"].startswith("ATAPass"):
+            # an LBA whose bytes are pairwise different, so that any byte mix-up shows
+            kw.update({"lba": 0x123456 if c["cls"].endswith("12") else 0x0000A1B2C3D4, "t_length": 0, "data": None})
         pool.append({"c": c, "cls": cls, "op": op, "kw": kw, "name": c["cls"], "set": sn, "opname": s["opname"], "module": c["module"]})
-    # solo results, each obtained right after constructing only that class
+
+    # solo results: each class built, decoded and re-encoded in a process of its own, forked before this process has
+    # constructed any command (a class whose first use is disturbed by an earlier use of another class would otherwise
+    # already be disturbed when its reference is taken)
+    def solo_of(p):
+        r, w = os.pipe()
+        pid = os.fork()
+        if pid == 0:
+            try:
+                os.close(r)
+                inst = p["cls"](p["op"], **p["kw"])
+                fields = p["cls"].unmarshall_cdb(inst.cdb)
+                out = (bytes(inst.cdb), bytes(inst.dataout), len(inst.datain), fields, bytes(p["cls"].marshall_cdb(fields)))
+                os.write(w, pickle.dumps(out))
+            finally:
+                os._exit(0)
+        os.close(w)
+        buf = b""
+        while True:
+            chunk = os.read(r, 1 << 16)
+            if not chunk:
+                break
+            buf += chunk
+        os.close(r)
+        os.waitpid(pid, 0)
+        if not buf:
+            raise common.Infra("C09: solo construction of %s failed in its own process" % p["name"])
+        return pickle.loads(buf)
+
     for p in pool:
+        p["cdb"], p["dataout"], p["datain_len"], p["fields"], p["re"] = solo_of(p)
+        p["L"] = len(p["cdb"])
         inst = p["cls"](p["op"], **p["kw"])
-        p["cdb"] = bytes(inst.cdb)
-        p["dataout"] = bytes(inst.dataout)
-        p["datain_len"] = len(inst.datain)
-        p["L"] = len(inst.cdb)
-        p["fields"] = p["cls"].unmarshall_cdb(inst.cdb)
-        p["re"] = bytes(p["cls"].marshall_cdb(p["fields"]))
+        if (bytes(inst.cdb), bytes(inst.dataout), len(inst.datain)) != (p["cdb"], p["dataout"], p["datain_len"]):
+            res.violation("first use of %s" % p["name"], "%s built in this process (after %s) differs from the same construction in a process of its own" % (
+                p["name"], ", ".join(q["name"] for q in pool[:pool.index(p)][-6:]) or "nothing"),
+                {"class": p["name"], "got": bytes(inst.cdb).hex(), "solo": p["cdb"].hex()})
     reqs = []
     # ---- sequential histories over pairs / triples of classes
     for it in range(200 * scale):
@@ -162,29 +201,42 @@ def run(res, tier, build_ok):
                           "%s of %s gives %s after the history, %s on its own" % (bad[0], bad[1], bad[2], bad[3]), {"history": acts, "got": bad[2], "solo": bad[3]})
         else:
             reqs.append(("isorun " + ",".join(acts), "ok " + ",".join(obs)))
+    lap("solo+sequential histories")
     # ---- histories in a fresh interpreter each (first use of a class after other classes / the base-class entry points)
     import base64
     import pickle
     import subprocess
     child = str(common.VERIF / "tools" / "lib" / "c09_child.py")
     jobs = []
-    for it in range(12 * scale):
-        a, b = rng.sample(pool, 2)
+    # classes that share a module family, a base class or helpers: every ordered pair of them, each in a fresh interpreter
+    fam = {}
+    for p in pool:
+        key = p["name"].rstrip("0123456789")
+        fam.setdefault(key, []).append(p)
+    related = [(a, b) for ps in fam.values() if len(ps) > 1 for a in ps for b in ps if a is not b]
+    related += [(a, b) for a in pool for b in pool if a is not b and a["name"].startswith("PersistentReserveIn") and b["name"].startswith("PersistentReserveIn")]
+    picks = related + [tuple(rng.sample(pool, 2)) for _ in range(12 * scale)]
+    res.count("fresh-interpreter related ordered pairs", len(related))
+    for a, b in picks:
         classes = {}
         for tag, p in (("A", a), ("B", b)):
             classes[tag] = {"module": p["module"], "cls": p["name"], "set": p["set"], "opname": p["opname"], "kw": p["kw"],
                             "cdb": p["cdb"], "fields": p["fields"]}
-        mid = rng.choice([["base_unmarshall"], ["base_marshall"], ["unmarshall"], ["marshall"], ["base_unmarshall", "base_marshall"], []])
+        mid = rng.choice([["base_unmarshall"], ["base_marshall"], ["unmarshall"], ["marshall"], ["base_unmarshall", "base_marshall"], [], []])
         # the static calls of a class follow a construction of that class (before the first construction
         # marshall_cdb has no CDB length to work with and raises TypeError — original and repaired code alike)
         steps = [("ctor", "A")] + [(m, "A") for m in mid] + rng.choice([[("ctor", "B"), ("unmarshall", "B"), ("marshall", "B")],
                                                                         [("ctor", "B"), ("marshall", "B"), ("unmarshall", "B")]]) + \
             [("unmarshall", "A"), ("marshall", "A")]
         jobs.append(({"classes": classes, "steps": steps}, a, b))
-    procs = [(subprocess.Popen([common.PYTHON, child], stdin=subprocess.PIPE, stdout=subprocess.PIPE, stderr=subprocess.PIPE,
-                               env=dict(__import__("os").environ, VERIF_REPO=str(common.REPO))), job, a, b) for job, a, b in jobs]
-    for pr, job, a, b in procs:
-        o, e = pr.communicate(base64.b64encode(pickle.dumps(job)), timeout=120)
+    procs = []
+    for k in range(0, len(jobs), 16):          # 16 interpreters at a time
+        batch = [(subprocess.Popen([common.PYTHON, child], stdin=subprocess.PIPE, stdout=subprocess.PIPE, stderr=subprocess.PIPE,
+                                   env=dict(os.environ, VERIF_REPO=str(common.REPO))), job, a, b) for job, a, b in jobs[k:k + 16]]
+        for pr, job, a, b in batch:
+            o, e = pr.communicate(base64.b64encode(pickle.dumps(job)), timeout=120)
+            procs.append((pr, job, a, b, o, e))
+    for pr, job, a, b, o, e in procs:
         if pr.returncode != 0:
             raise common.Infra("C09 child failed: " + e.decode()[-800:])
         obs = pickle.loads(base64.b64decode(o))
@@ -206,6 +258,7 @@ def run(res, tier, build_ok):
                               "in a fresh interpreter, after %s: %s of %s gives %s, %s on its own" % (" ; ".join(hist), bad[0], p["name"], bad[1], bad[2]),
                               {"history": hist, "got": bad[1], "solo": bad[2]})
                 break
+    lap("fresh-interpreter histories")
     # ---- two threads, cold process: thread A parked after k traced lines (scsi_command.py and converter.py), thread B
     #      runs to completion, then A finishes; every k, each schedule in a freshly forked process
     tchild = str(common.VERIF / "tools" / "lib" / "c09_threads_child.py")
@@ -242,6 +295,7 @@ def run(res, tier, build_ok):
                                   a["name"], k, b["name"], tid, str(got)[:200], str(want)[:200]),
                               {"classes": [a["name"], b["name"]], "preempt_after": k, "thread": tid, "got": str(got)[:400], "solo": str(want)[:400]})
                 break
+    lap("cold-process thread schedules")
     # ---- two threads under a deterministic line-level scheduler
     pairs = [(a, b) for a in pool for b in pool if a["L"] != b["L"]]
     rng.shuffle(pairs)
@@ -260,35 +314,72 @@ def run(res, tier, build_ok):
         s0 = Sched(("scsi_command.py",))
         _, st = s0.run({0: body(b)}, lambda steps, alive: 0)
         nb = st.get(0, 0)
-        for i in range(0, na + 1):
-            for j in range(0, nb + 1, 1 if scale > 1 else 2):
-                sch = Sched(("scsi_command.py",))
+        # the (i, j) grid is split over forked workers (rows of i), each returning its mismatches
+        def rows(i_list, a=a, b=b, nb=nb):
+            bad = []
+            n = 0
+            for i in i_list:
+                for j in range(0, nb + 1, 1 if scale > 1 else 2):
+                    sch = Sched(("scsi_command.py",))
 
-                def pick(steps, alive, i=i, j=j):
-                    sa, sb = steps.get(0, 0), steps.get(1, 0)
-                    if 0 in alive and sa < i:
-                        return 0
-                    if 1 in alive and sb < j:
+                    def pick(steps, alive, i=i, j=j):
+                        sa, sb = steps.get(0, 0), steps.get(1, 0)
+                        if 0 in alive and sa < i:
+                            return 0
+                        if 1 in alive and sb < j:
+                            return 1
+                        if 0 in alive:
+                            return 0
                         return 1
-                    if 0 in alive:
-                        return 0
-                    return 1
-                results, _ = sch.run({0: body(a), 1: body(b)}, pick)
-                nsched += 1
-                res.case(("threads", a["name"], b["name"], i, j), None if nsched > 3 else
-                         {"threads": [a["name"], b["name"]], "T0 runs %d lines, then T1 %d lines, then T0 to the end, then T1" % (i, j): True})
-                res.count("thread schedules")
-                for tid, p in ((0, a), (1, b)):
-                    r = results.get(tid)
-                    want = ("ok", (p["cdb"], p["fields"], p["re"]))
-                    if r != want:
-                        res.violation("threads %s|%s" % (a["name"], b["name"]),
-                                      "thread building %s interleaved with a thread building %s (switch after %d and %d lines) got %s" % (
-                                          p["name"], (b if tid == 0 else a)["name"], i, j, str(r)[:160]),
-                                      {"classes": [a["name"], b["name"]], "preempt_after": [i, j], "thread": tid, "got": str(r)[:300], "solo": str(want)[:300]})
+                    results, _ = sch.run({0: body(a), 1: body(b)}, pick)
+                    n += 1
+                    for tid, p in ((0, a), (1, b)):
+                        r = results.get(tid)
+                        want = ("ok", (p["cdb"], p["fields"], p["re"]))
+                        if r != want:
+                            bad.append((i, j, tid, str(r)[:300], str(want)[:300]))
+            return n, bad
+
+        nwork = 12
+        chunks = [list(range(w, na + 1, nwork)) for w in range(nwork)]
+        workers = []
+        for ch in chunks:
+            if not ch:
+                continue
+            r_, w_ = os.pipe()
+            pid = os.fork()
+            if pid == 0:
+                try:
+                    os.close(r_)
+                    out = rows(ch)
+                    with os.fdopen(w_, "wb") as f:
+                        pickle.dump(out, f)
+                finally:
+                    os._exit(0)
+            os.close(w_)
+            workers.append((pid, r_))
+        for pid, r_ in workers:
+            with os.fdopen(r_, "rb") as f:
+                blob = f.read()
+            os.waitpid(pid, 0)
+            if not blob:
+                raise common.Infra("C09: a thread-schedule worker died")
+            n, bad = pickle.loads(blob)
+            nsched += n
+            res.count("thread schedules", n)
+            res.cases += n
+            for i, j, tid, got, want in bad[:3]:
+                p = a if tid == 0 else b
+                res.violation("threads %s|%s" % (a["name"], b["name"]),
+                              "thread building %s interleaved with a thread building %s (switch after %d and %d lines) got %s" % (
+                                  p["name"], (b if tid == 0 else a)["name"], i, j, got[:160]),
+                              {"classes": [a["name"], b["name"]], "preempt_after": [i, j], "thread": tid, "got": got, "solo": want})
+        res.case(("threads", a["name"], b["name"]), {"threads": [a["name"], b["name"]],
+                 "schedules": "T0 runs i lines, then T1 j lines, then T0 to the end, then T1; all i in 0..%d, j in 0..%d" % (na, nb)})
         # the schedule of the Lean witness: T0 constructs, T1 constructs and builds, T0 builds
         reqs.append(("isorun c:%s:%d,c:%s:%d,b:%s,b:%s,d:%s" % (a["name"], a["L"], b["name"], b["L"], a["name"], b["name"], a["name"]),
                      "ok -,-,%s/%d,%s/%d,%s" % (a["name"], a["L"], b["name"], b["L"], a["name"])))
+    lap("line-level scheduler")
     # ---- commands that compose a parameter list (MODE SELECT 6/10, PERSISTENT RESERVE OUT, EXTENDED COPY): several
     #      argument variants per class, valid and rejected ones.  What a construction yields (CDB + data-out) or the
     #      error it is refused with must be what the same construction yields in a process of its own, after any
@@ -433,6 +524,7 @@ def run(res, tier, build_ok):
                     break
             if stop:
                 break
+    lap("parameter-list commands")
     reps = drv.batch([r[0] for r in reqs])
     for (line, impl), rep in zip(reqs, reps):
         if rep != impl:
